@@ -709,7 +709,7 @@ func checkProperty(id, tier string) int {
 				rsem <- struct{}{}
 				defer func() { <-rsem }()
 				first := results[i].Ms
-				r := discharge(g, timeoutS, all)
+				r := discharge(g, 3*timeoutS, all) // the machine is quieter now; be generous
 				r.Ms += first
 				if r.Result != "undecided" {
 					r.Note = strings.TrimSpace(r.Note + " (decided on the second attempt)")
